@@ -28,17 +28,40 @@ def max_hyp_py(inst):
             and all(s[0] > 0 for t in inst["tasks"] for s in t["strats"]))
 
 
+def tight_world(rng, flavour):
+    """One CPU, 2-3 independent tasks whose runtimes add up exactly to the common deadline: every task can be placed
+    only if the plan is back-to-back (touching intervals), at exactly one order-independent set of slots."""
+    now = rng.choice([0, 1, 2])
+    n = rng.choice([2, 2, 3])
+    rts = [rng.choice([1, 2, 3]) for _ in range(n)]
+    graphs = []
+    for k, rt in enumerate(rts):
+        graphs.append({"name": "g%d" % k, "tasks": [{"name": "t%d0" % k, "strats": [[rt, [["CPU", 1]]]], "children": [],
+                                                      "release": rng.randint(0, now), "deadline": now + sum(rts),
+                                                      "state": "released"}]})
+    return {"now": now, "cfg": {"flavour": flavour, "enforce": True, "retract": True, "disc": 1, "release_tg": False,
+                                "plan_ahead": -1},
+            "resources": T.RES, "pools": [[{"name": "W1", "res": [["CPU", 1]]}]], "graphs": graphs}
+
+
 def run(ctx):
     T.prepare(ctx, PROPS)
     quick = ctx.tier == "quick"
     ng, nc = (50, 30) if quick else (600, 300)
     worlds = T.generate(ctx, ng, nc, allow_running=False)
+    seen = {T.world_key(w) for w in worlds}
+    for k in range(16 if quick else 120):
+        w = tight_world(ctx.rng, "gurobi" if k % 2 == 0 else "cplex")
+        if T.world_key(w) not in seen:
+            seen.add(T.world_key(w))
+            worlds.append(w)
     results = T.run_worlds(worlds)
     ctx.rules.append(
         "worlds as in C10_tetri without RUNNING tasks (signature of F11-iii, exercised separately), both back-ends, task-by-task "
         "and whole-graph mode; the maximality monitor is applied where the hypotheses of C14_tetri_maximal hold (max_hypb: no "
         "running task, every parent of a task has variables); tiny worlds (<= 3 tasks, <= 2 workers, <= 2 strategies, <= 9 slots) "
-        "are compared with the brute-force optimum over all plans; distinct = distinct world JSON; non-trivial = >= 2 tasks in the "
+        "are compared with the brute-force optimum over all plans; exactly tight back-to-back worlds (one CPU, runtimes adding up to "
+        "the common deadline) exercise touching intervals; distinct = distinct world JSON; non-trivial = >= 2 tasks in the "
         "model and at least one task left unplaced or a capacity/precedence conflict between two placed tasks")
 
     def nontrivial(w, r):
